@@ -1,11 +1,14 @@
 #!/usr/bin/env python3
 """Development tool: try one textual edit on the private worktree /tmp/wt/main without filing it.
 usage: probe_mut.py <module dir> <file rel to repo> <old> <new> <Cxx> [Cyy...]
+BASE_PATCH=<patch> applies a patch first (sensitivity of a refactored form).
 Builds the module with the edit, runs the quick checks of the given properties against /tmp/wt/main, restores the tree."""
 import sys,subprocess,os
 mod,f,old,new=sys.argv[1:5]; props=sys.argv[5:]
 wt='/tmp/wt/main'
 subprocess.check_call(['git','-C',wt,'checkout','-q','--','.'])
+if os.environ.get('BASE_PATCH'):  # stack the edit on a (refactoring) patch
+    subprocess.check_call(['git','-C',wt,'apply',os.environ['BASE_PATCH']])
 p=wt+'/'+f; s=open(p).read()
 assert s.count(old)==1,('occurrences',s.count(old))
 open(p,'w').write(s.replace(old,new))
